@@ -68,7 +68,7 @@ Lemma inout_nullable_refuted_before_fix :
                 /\ rf_optional (read_param false (emit ps sl)) = true.
 Proof.
   exists [], {| sl_is_return := false; sl_name := s "v"; sl_kind := KdFund (s "utf8"); sl_raw_ctype := s "gchar**";
-                sl_direction := DInout; sl_caller_allocates := false; sl_transfer := Some TFull; sl_nullable := true;
+                sl_direction := DInout; sl_dir_unset := false; sl_caller_allocates := false; sl_transfer := Some TFull; sl_nullable := true;
                 sl_not_nullable := false; sl_optional := false; sl_skip := false; sl_scope := None; sl_closure := None;
                 sl_destroy := None; sl_attrs := [] |}.
   vm_compute. repeat split; reflexivity.
